@@ -83,3 +83,33 @@ func jsonOf(v interface{}) string {
 	b, _ := json.Marshal(v)
 	return string(b)
 }
+
+// schemaClasses records which of the generator's layout and naming features the module of a case has.
+func schemaClasses(o *hx.Obs, m *dm.Module) {
+	var aug, short, reused, leafref, union bool
+	names := map[string]bool{}
+	var walk func(n *dm.Node)
+	walk = func(n *dm.Node) {
+		aug = aug || n.Aug
+		short = short || n.Short
+		if n.Kind != "choice" && n.Kind != "case" {
+			reused = reused || names[n.Name]
+			names[n.Name] = true
+		}
+		if n.Type != nil {
+			leafref = leafref || n.Type.Base == "leafref"
+			union = union || n.Type.Base == "union"
+		}
+		for _, c := range n.Children {
+			walk(c)
+		}
+	}
+	for _, n := range m.Top {
+		walk(n)
+	}
+	for name, on := range map[string]bool{"augment": aug, "shorthand case": short, "a reused name": reused, "leafref": leafref, "union": union, "identities in a submodule": m.SubIdents > 0} {
+		if on {
+			o.Class("schema has: %s", name)
+		}
+	}
+}
